@@ -172,6 +172,19 @@ CHECKS = {
              "422 and everything carried forward; each transformation effective exactly once overall; 404 silent; no write on another "
              "uid (the name-reuse hole of merge-patches is a recorded known finding).",
         design_ref='DESIGN.md §6 C08'),
+    'C12': dict(
+        technique="exhaustive fault-sequence enumeration (the full answer tree per request) on the real API client and vault under a "
+                  "virtual clock, plus scenario enumeration and deviation-bounded search for per-object containment in the closed loop",
+        text="(a) api.request via auth.authenticated with a real Vault and authenticator: every answer sequence until the request ends "
+             "(15 answer kinds: 5xx, 403, 429 with Retry-After as header or retryAfterSeconds, other 4xx, timeout, connection error) x "
+             "error_backoffs {(), scalar, list, re-iterable} x enforce_retry_after: attempt instants and the final exception class "
+             "must equal api_retry_ref; expired credentials with 1-3 concurrent requests, a late one, slow 401 answers and a second "
+             "expiry: exactly one login per invalidation, all requests finish on the fresh session, invalidated sessions are never "
+             "reused. (b) two objects in the closed loop: object a's PATCHes fail for the first 1-4 attempts while events keep "
+             "arriving inside the pause windows, for three error_delays settings: a's processing instants must equal the pause "
+             "schedule (growing, repeating the last delay, reset by success), b is processed at its arrival instants, no operator "
+             "task fails, a converges once errors stop and an event arrives.",
+        design_ref='DESIGN.md §6 C12'),
 }
 
 
